@@ -63,6 +63,9 @@ def main():
     tag = None
     if "--tag" in sys.argv:
         tag = sys.argv[sys.argv.index("--tag") + 1]
+    names = None
+    if "--names" in sys.argv:
+        names = sys.argv[sys.argv.index("--names") + 1].split(",")
     if "--workers" in sys.argv:
         workers = int(sys.argv[sys.argv.index("--workers") + 1])
     tasks = []
@@ -76,6 +79,8 @@ def main():
         if tag and not grp.endswith("-" + tag):
             continue
         name = f"{grp}{os.path.basename(d)}"                # C18-a1
+        if names and name not in names:
+            continue
         tasks.append((name, d, prop, baseline))
     # interleave properties so that workers do not all queue on one lock
     tasks.sort(key=lambda t: (t[0][-1], t[0]))
